@@ -42,6 +42,7 @@ from rzilcompiler.Transformer.ValueType import (
     get_value_type_by_c_number,
     VTGroup,
     promoted_type,
+    wrap_to_type,
 )
 from rzilcompiler.Transformer.Effects.Assignment import Assignment, AssignmentType
 from rzilcompiler.Transformer.Pures.ArithmeticOp import ArithmeticOp, ArithmeticType
@@ -1189,8 +1190,12 @@ class RZILTransformer(Transformer):
         if not isinstance(a.get_val(), int) or not isinstance(b.get_val(), int):
             return None
 
-        val_a = a.get_val()
-        val_b = b.get_val()
+        # The operands are compared in their common type.
+        a_type, b_type = c11_cast(
+            promoted_type(a.value_type), promoted_type(b.value_type)
+        )
+        val_a = wrap_to_type(wrap_to_type(a.get_val(), a.value_type), a_type)
+        val_b = wrap_to_type(wrap_to_type(b.get_val(), b.value_type), b_type)
         self.il_ops_holder.rm_op_by_name(a.get_name())
         self.il_ops_holder.rm_op_by_name(b.get_name())
         match operation:
